@@ -68,6 +68,9 @@ func (S *LevelDbStore) GetCertRevocationStatus(issuer *pkix.RDNSequence, certSer
 		if err != nil {
 			return nil, fmt.Errorf("could not deserialize revoked cert: %v", err)
 		}
+	} else if !errors.Is(err, leveldb.ErrNotFound) {
+		//only a missing key means not revoked, any other error (closed or corrupted database, io error) must not
+		return nil, fmt.Errorf("could not read revocation status: %v", err)
 	}
 	return &core.RevocationStatus{
 		Revoked:             revoked,
